@@ -468,3 +468,56 @@ theorem cotreeIter_clean_of_init_throws {base L h} (n : Nat) (t : Tracks base L 
       rw [hi'] at hi; cases hi
 
 end PPLV.Alloc
+
+namespace PPLV.Alloc
+
+/-- Shape of the tree `init` leaves when the cached iterators were null before the call. -/
+theorem cotInit_cases {n h thr tr h1} (e : cotInit none n h = (thr, tr, h1)) :
+    (thr = true ∧ tr = Tree.empty) ∨ (thr = false ∧ n = 0 ∧ tr = Tree.empty ∧ h1 = h) ∨
+    (thr = false ∧ ∃ bi bd, tr = Tree.mk (some bi) (some bd) (reservedOf n) [] 0 (some bi)) := by
+  unfold cotInit at e
+  split at e
+  · rename_i hn; cases e; exact Or.inr (Or.inl ⟨rfl, hn, rfl, rfl⟩)
+  · split at e
+    · cases e; exact Or.inl ⟨rfl, rfl⟩
+    · split at e
+      · cases e; exact Or.inl ⟨rfl, rfl⟩
+      · cases e; exact Or.inr (Or.inr ⟨rfl, _, _, rfl⟩)
+
+theorem copyDataFrom_cases {bi bd r x h thr tr h'}
+    (e : copyDataFrom (Tree.mk (some bi) (some bd) r [] 0 (some bi)) x h = (thr, tr, h')) :
+    tr = Tree.empty ∨ ∃ es, tr = Tree.mk (some bi) (some bd) r es es.length (some bi) := by
+  unfold copyDataFrom at e
+  split at e
+  · cases e; exact Or.inr ⟨[], rfl⟩
+  · split at e
+    · cases e; exact Or.inr ⟨_, rfl⟩
+    · cases e; exact Or.inl rfl
+
+theorem Tree.ok_empty : Tree.empty.ok = true := by simp [Tree.ok, Tree.empty]
+theorem Tree.ok_full (bi bd r : Nat) (es : List Nat) (hr : r ≠ 0) :
+    (Tree.mk (some bi) (some bd) r es es.length (some bi)).ok = true := by simp [Tree.ok, hr]
+
+/-- `operator=` on a receiver that was the empty tree leaves a valid tree on every path. -/
+theorem cotreeAssign_valid_of_empty (x : List Bool) (h : Heap) :
+    (cotreeAssign Tree.empty x h).valid = true := by
+  unfold cotreeAssign
+  have hd : cotDestroy Tree.empty h = h := by simp [cotDestroy, Tree.empty]
+  simp only [hd]
+  have hc : Tree.empty.cached = none := rfl
+  rw [hc]
+  rcases hci : cotInit none x.length h with ⟨thr, tr, h1⟩
+  rcases cotInit_cases hci with ⟨e1, e2⟩ | ⟨e1, hn, e2, e3⟩ | ⟨e1, bi, bd, e2⟩
+  · subst e1 e2; simp [Outcome.ofHeap, Tree.ok_empty]
+  · subst e1 e2 e3
+    have hx : x = [] := List.length_eq_zero_iff.mp hn
+    subst hx
+    simp [copyDataFrom, Outcome.ofHeap, Tree.ok_empty]
+  · subst e1 e2
+    simp only
+    rcases hcd : copyDataFrom _ x h1 with ⟨thr2, tr2, h2⟩
+    rcases copyDataFrom_cases hcd with e3 | ⟨es, e3⟩
+    · subst e3; cases thr2 <;> simp [Outcome.ofHeap, Tree.ok_empty]
+    · subst e3; cases thr2 <;> simp [Outcome.ofHeap, Tree.ok_full _ _ _ _ (reservedOf_ne_zero _)]
+
+end PPLV.Alloc
